@@ -27,7 +27,9 @@ _CMP = {"==": operator.eq, "!=": operator.ne, "<": operator.lt, "<=": operator.l
 
 
 def _np_isnan(x: Any) -> Any:
-    return np.isnan(x)
+    # C's isnan yields an int, and pytato declares the lambda int32: a reduction over it
+    # counts (it is not a logical or)
+    return np.isnan(x).astype(np.int32)
 
 
 FUNCS: dict[str, Any] = {
